@@ -1007,7 +1007,22 @@ pub fn run_c14(id: &str, tier: &str, seed: u64) -> i32 {
             });
         }
     });
-    let st = total.into_inner().unwrap();
+    let mut st = total.into_inner().unwrap();
+    let mut e2e_cov = Value::Null;
+    let mut inconclusive = vec![];
+    if let Ok(bin) = std::env::var("VMON_PLUGIN_BIN") {
+        let r = crate::e2e_checks::c14_e2e(&bin, seed, if thorough { 200 } else { 24 });
+        e2e_cov = r.coverage;
+        for (k, v) in r.violations {
+            st.violations.insert(k, v);
+        }
+        for (k, v) in r.evals {
+            *st.evals.entry(if k == "R14a-e2e" { "R14a-e2e" } else { "e2e" }).or_insert(0) += v;
+        }
+        inconclusive.extend(r.inconclusive);
+    } else {
+        inconclusive.push("plugin binary not provided".into());
+    }
     conclude_simple(
         Simple {
             id,
@@ -1023,9 +1038,9 @@ pub fn run_c14(id: &str, tier: &str, seed: u64) -> i32 {
             samples: st.samples.iter().map(|s| json!(s)).collect(),
             rules: vec!["R14a", "R14b", "R14c", "R14d"],
             rule_text: "differential: payment B (1-3 HTLCs; funded / partial / rejected; fixed or amountless invoice; every pay outcome; fused or split RPC replies) is run alone and next to a payment A frozen at one of 9 suspension points (each RPC kind of its lifecycle, or its MPP timer) under the same canonical schedule; B's RPC sequence, replies and answers must be identical and its answer times within 25 ms; plus B alone vs B with an HTLC of another hash that carries B's invoice (R14d: nothing pooled across hashes); a case is one (B scenario, freeze point) pair; distinct = distinct (freeze point, B shape, pay outcome) classes in which A was verifiably frozen",
-            extra: json!({"b_calls_compared": st.b_calls_compared, "pairs_where_A_did_not_reach_the_freeze_point": st.not_frozen, "freeze_points": FREEZE_POINTS.iter().map(|f| format!("{}#{}", f.0, f.1)).collect::<Vec<_>>()}),
-            assumptions: vec!["attempt ids and pay labels (wall clock) are abstracted before comparing".into(), "B scenarios are scheduled canonically so that adding A cannot legitimately change B's interleaving".into()],
-            inconclusive: vec![],
+            extra: json!({"b_calls_compared": st.b_calls_compared, "pairs_where_A_did_not_reach_the_freeze_point": st.not_frozen, "freeze_points": FREEZE_POINTS.iter().map(|f| format!("{}#{}", f.0, f.1)).collect::<Vec<_>>(), "e2e_isolation_sessions(real rpc.rs)": e2e_cov}),
+            assumptions: vec!["attempt ids and pay labels (wall clock) are abstracted before comparing".into(), "B scenarios are scheduled canonically so that adding A cannot legitimately change B's interleaving".into(), "E2E part: a 10 s wall-clock limit for payment B while A is stuck; the fake node answers B's RPCs at once".into()],
+            inconclusive,
             exhaustive: None,
         },
         t0,
